@@ -414,6 +414,80 @@ func c05Propagation(r *Run) {
 	if nLit < 4 {
 		r.Unk("C05.V3", "ttlv/literals", token.NoPos, "only %d Encoder/Decoder literals found (expected newEncoder, newDecoder, Encoder.Struct, Decoder.Struct)", nLit)
 	}
+	// (1b) on the value level: the coder handed to the callback of Encoder.Struct / Decoder.Struct carries the very
+	// pointer the parent holds (a copy of the pointed-to state keeps what was known when the structure was opened, but
+	// the version recorded by the header's first field is then invisible to the header's siblings: the batch items)
+	for _, tn := range []string{"Encoder", "Decoder"} {
+		fn := p.Func("ttlv", tn, "Struct")
+		key := "ttlv." + tn + ".Struct/callback-shares-state"
+		if fn == nil {
+			r.Unk("C05.V3", key, token.NoPos, "anchor missing")
+			continue
+		}
+		nCalls, bad := 0, ""
+		var badPos token.Pos
+		withClosures(fn, func(f *ssa.Function) {
+			allInstrs(f, func(in ssa.Instruction) {
+				call, ok := in.(*ssa.Call)
+				if !ok || call.Call.IsInvoke() || call.Call.StaticCallee() != nil || len(call.Call.Args) != 1 {
+					return
+				}
+				// a dynamic call with a *Encoder / *Decoder argument: the callback
+				if typeName(call.Call.Args[0].Type()) != tn {
+					return
+				}
+				nCalls++
+				al, ok := call.Call.Args[0].(*ssa.Alloc)
+				if !ok {
+					bad, badPos = "the callback's coder is not a literal built in place", call.Pos()
+					return
+				}
+				shared := false
+				for _, ref := range *al.Referrers() {
+					switch x := ref.(type) {
+					case *ssa.FieldAddr:
+						if x.Field != 0 {
+							continue
+						}
+						for _, r2 := range *x.Referrers() {
+							st, ok := r2.(*ssa.Store)
+							if !ok || st.Addr != ssa.Value(x) {
+								continue
+							}
+							// value: load of FieldAddr(parent coder, field 0)
+							if ld, ok := st.Val.(*ssa.UnOp); ok && ld.Op == token.MUL {
+								if pf, ok := ld.X.(*ssa.FieldAddr); ok && pf.Field == 0 && typeName(pf.X.Type()) == tn {
+									shared = true
+								}
+							}
+						}
+					case *ssa.Store:
+						// the whole struct stored at once (sub := newEncoder(w); ...): not the parent's pointer
+						if x.Addr == ssa.Value(al) {
+							if ld, ok := x.Val.(*ssa.UnOp); ok && ld.Op == token.MUL && typeName(ld.X.Type()) == tn {
+								if _, isPtr := ld.X.Type().Underlying().(*types.Pointer); isPtr {
+									shared = true // sub := *parent copies the pointer field
+									continue
+								}
+							}
+							bad, badPos = "the callback's coder is a separately constructed "+tn+" (its version state is a copy, not the parent's)", x.Pos()
+						}
+					}
+				}
+				if !shared && bad == "" {
+					bad, badPos = "the callback's coder does not take its version state pointer from the parent coder", call.Pos()
+				}
+			})
+		})
+		switch {
+		case nCalls == 0:
+			r.Unk("C05.V3", key, fn.Pos(), "no call of the structure callback found")
+		case bad != "":
+			r.Bad("C05.V3", key, badPos, "%s.Struct: %s: the version recorded while the header's Protocol Version field is coded stays on the header's coder, so the batch items that follow are coded with no version and elements of later KMIP versions appear in (or are accepted from) messages framed at an earlier one", tn, bad)
+		default:
+			r.OK("C05.V3", key, fn.Pos(), "the callback receives a coder holding the parent's own version-state pointer")
+		}
+	}
 	// (2) stores to extension.version: only setVersion and Encoder.Clear; setVersion called only from the set-version wrappers
 	for _, fn := range p.OwnFuncs() {
 		allInstrs(fn, func(in ssa.Instruction) {
